@@ -44,6 +44,7 @@ REQUIRED_CLAUSES = ['O-carrier-and-options-invariance', 'W-short-read-source', '
                     'W-wrapper-verdict-invariance', 'actual-size']
 ASSUMPTIONS = ['ground truth for regions is the presented stream itself (slice semantics)',
                'known findings F1 F3 are attributed by input-only predicates (vlib/known.py, imagegen.vhdx_backward)']
+INTERPRETER_FLAGS = [[], ['-O'], [], ['-bb']]
 SHARDS = {'quick': 8, 'thorough': 16}
 MIN_DISTINCT = {'quick': 2000, 'thorough': 20000}
 LEVEL_TEXT = ('Exploration with exact oracles: region contents are compared with the stream slice after every chunk, '
@@ -348,7 +349,7 @@ def eval_stream(ctx, case):
             if opt.get('wrapper_only'):
                 continue
             res = sl.feed(cls, data, cuts, empties=empties, queries=queries, carrier=opt.get('carrier', 'bytes'),
-                          ctor_kw={'tracing': True} if opt.get('tracing') else None)
+                          ctor_kw={'tracing': True} if opt.get('tracing') else None, clone_at=opt.get('clone_at'))
             if opt:
                 ctx.clause('O-carrier-and-options-invariance')
             ctx.case((name, data, tuple(cuts), tuple(empties), queries, tuple(sorted(opt.items()))),
@@ -382,7 +383,8 @@ def eval_stream(ctx, case):
             opt = sched[4] if len(sched) > 4 else {}
             if opt and not opt.get('wrapper_only'):
                 continue
-            res = sl.feed_wrapper(data, cuts, queries=queries, empties=empties, short_reads=opt.get('short_reads'))
+            res = sl.feed_wrapper(data, cuts, queries=queries, empties=empties, short_reads=opt.get('short_reads'),
+                                  source_faults=opt.get('source_faults') or ())
             if opt.get('short_reads'):
                 ctx.clause('W-short-read-source')
             ctx.case(('wrapper', data, tuple(cuts), tuple(empties), queries, tuple(sorted(opt.items()))),
@@ -486,9 +488,12 @@ def make_schedules(rng, n, bounds, count, max_chunks=70000):
     for klass, cuts, _e, _q in rng.sample(scheds, min(len(scheds), 2)):
         if len(cuts) <= 3000:
             extra.append([klass + '+tracing', cuts, [], False, {'tracing': True}])
+            extra.append([klass + '+deepcopy', cuts, [], False, {'clone_at': rng.choice([0, len(cuts) // 2, len(cuts)])}])
     for klass, cuts, _e, _q in rng.sample(scheds, min(len(scheds), max(2, count // 4))):
         if 1 <= len(cuts) <= 3000:
             extra.append([klass + '+shortreads', cuts, [], False, {'wrapper_only': True, 'short_reads': True}])
+            extra.append([klass + '+source-error-retry', cuts, [], False,
+                          {'wrapper_only': True, 'source_faults': [rng.choice([1, 1, 2, rng.randrange(1, len(cuts) + 2)])]}])
     return scheds + extra
 
 
